@@ -44,8 +44,10 @@ func NewStore(cfg Config, m Media, syncer bool) (*Store, error) {
 			return err
 		}
 		if err := s.Data.Sync(); err != nil {
+			s.SyncSucceeded(false)
 			return err
 		}
+		s.SyncSucceeded(true)
 		// Sync() has returned; NotifySyncCompleted has not run yet
 		s.park(who(), Event{Kind: "synced"})
 		return nil
